@@ -96,7 +96,7 @@ WaitBad(e) ==
          THEN "C16_WaitAttempted"
     ELSE IF ~e.q THEN "ok"
     ELSE IF (e.lw = 0) # (Failed = {}) THEN "C16_LowWatermarkZero"
-    ELSE IF Failed # {} /\ e.lw # MinOf({ call[k].rev : k \in Failed }) THEN "C16_LowWatermark"
+    ELSE IF Failed # {} /\ e.lw # MinOf({ call[k].orig : k \in Failed }) THEN "C16_LowWatermark"
     ELSE "ok"
 
 QuiesceBad(e) ==
@@ -123,14 +123,22 @@ Step(e) ==
     /\ hist' = IF e.op = "commit" THEN Put(hist, e.rev, Contents(ApplyChanges(tbl, e.changes))) ELSE hist
     /\ urev' = IF e.op # "user" THEN urev
                ELSE IF e.kind = "delete" THEN (IF e.found THEN Put(urev, e.k, [rev |-> e.rev, del |-> TRUE]) ELSE urev)
-               \* a status-only write of another reconciler keeps content and pending id: nothing new to attempt
-               ELSE IF e.kind = "status2" THEN urev
+               \* a status-only write of another reconciler keeps content and pending id: nothing new to attempt,
+               \* but a change that was not attempted yet now carries the new revision (the table keeps only the
+               \* latest revision of an object, so "every change up to rev" cannot include it before)
+               ELSE IF e.kind = "status2"
+                    THEN (IF e.k \in DOMAIN urev /\ ~urev[e.k].del /\ (e.k \notin DOMAIN call \/ call[e.k].maxrev < urev[e.k].rev)
+                          THEN Put(urev, e.k, [rev |-> e.rev, del |-> FALSE]) ELSE urev)
                ELSE Put(urev, e.k, [rev |-> e.rev, del |-> FALSE])
-    /\ changed' = IF e.op = "user" /\ (e.kind \in {"upsert", "reinsert"} \/ e.found) THEN changed \cup {e.k}
+    \* (a status-only write of another reconciler is no change of the object: it neither asks for a new attempt
+    \* nor restarts the retry sequence)
+    /\ changed' = IF e.op = "user" /\ e.kind # "status2" /\ (e.kind \in {"upsert", "reinsert"} \/ e.found) THEN changed \cup {e.k}
                   ELSE IF e.op = "call" /\ e.kind # "prune" THEN changed \ {e.k}
                   ELSE changed
     /\ call' = IF e.op = "call" /\ e.kind # "prune"
+               \* orig: the revision of the change whose reconciliation is failing; retries of it keep it
                THEN Put(call, e.k, [kind |-> e.kind, ver |-> e.ver, rev |-> e.rev, fail |-> e.fail, t |-> e.t,
+                                    orig |-> IF IsRetry(e) THEN call[e.k].orig ELSE e.rev,
                                     maxrev |-> IF e.k \in DOMAIN call /\ call[e.k].maxrev > e.rev THEN call[e.k].maxrev ELSE e.rev])
                ELSE call
     /\ tgt' = IF e.op # "call" \/ e.fail THEN tgt
